@@ -23,13 +23,18 @@ fn std_package(engines: &Engines) -> anyhow::Result<Package> {
         engines,
         None,
         &[],
-        &[sway_features::Feature::NewEncoding],
+        if new_enc() { &[] } else { &[sway_features::Feature::NewEncoding] },
         sway_core::DbgGeneration::Full,
     )?;
     let (res, handler) = v.pop().ok_or_else(|| anyhow::anyhow!("no package"))?;
     let progs = res.ok_or_else(|| anyhow::anyhow!("std did not check: {:?}", handler.consume().0.iter().take(3).map(|e| e.to_string()).collect::<Vec<_>>()))?;
     let typed = progs.typed.map_err(|_| anyhow::anyhow!("std did not type check"))?;
     Ok(typed.namespace.current_package_ref().clone())
+}
+
+/// HX_NEW_ENCODING=1: compile with the ExperimentalFeatures default (new_encoding on) like a normal build.
+fn new_enc() -> bool {
+    std::env::var("HX_NEW_ENCODING").map(|v| v == "1").unwrap_or(false)
 }
 
 fn main() {
@@ -49,7 +54,11 @@ fn main() {
             std::process::exit(2);
         }
     };
-    let experimental = sway_features::ExperimentalFeatures { new_encoding: false, ..Default::default() };
+    let experimental = if new_enc() {
+        sway_features::ExperimentalFeatures::default()
+    } else {
+        sway_features::ExperimentalFeatures { new_encoding: false, ..Default::default() }
+    };
     let _ = TreeType::Script;
     for file in &args[1..] {
         let path = PathBuf::from(file);
